@@ -11,7 +11,8 @@ RULE = ('each evaluation is one sequence of load / unload / failing-load (missin
         'width/scoped reference, and unqualified names when exactly one trace is loaded; every command also runs on the '
         'extracted Coq model. distinct = distinct operation sequences; non-trivial = at least two traces loaded at some point')
 
-OPS = ['load a', 'load b', 'load c', 'load missing', 'load ext', 'unload a', 'unload b', 'step a', 'step all', 'step all 2']
+OPS = ['load a', 'load b', 'load c', 'load missing', 'load ext', 'unload a', 'unload b', 'step a', 'step all', 'step all 2',
+       'loadas a b']      # another file under an id that may have been used before
 
 
 def make_traces(rng):
@@ -22,8 +23,9 @@ def make_traces(rng):
     return out
 
 
-def query(loaded, traces, idx):
+def query(loaded, traces0, idx, src):
     """(expression, expected serialisation)"""
+    traces = {t: traces0[src[t]] for t in loaded}
     parts = ['(loaded-traces)']
     vals = [list(loaded)]
     for t in loaded:
@@ -49,11 +51,24 @@ def make_case(seq, traces, cid):
     cmds.append(['file', 'n.txt', 'not a trace'])
     loaded = []
     idx = {}
+    src = {}
     expect = []
     multi = False
+    traces0 = traces
     for op in seq:
         parts = op.split()
-        if parts[0] == 'load':
+        traces = {t: traces0[src[t]] for t in loaded}
+        if parts[0] == 'loadas':
+            tid_, file_ = parts[1], parts[2]
+            cmds.append(['try', ['evalstr', '111', f'(load "{file_}.vcd" "{tid_}")']])
+            if tid_ in loaded:
+                expect.append('err')
+            else:
+                expect.append('ok N')
+                loaded.append(tid_)
+                idx[tid_] = 0
+                src[tid_] = file_
+        elif parts[0] == 'load':
             what = parts[1]
             if what == 'missing':
                 cmds.append(['try', ['evalstr', '111', '(load "nofile.vcd" "z")']])
@@ -69,6 +84,7 @@ def make_case(seq, traces, cid):
                     expect.append('ok N')
                     loaded.append(what)
                     idx[what] = 0
+                    src[what] = what
         elif parts[0] == 'unload':
             cmds.append(['try', ['evalstr', '111', f'(unload "{parts[1]}")']])
             expect.append('ok N')
@@ -102,7 +118,7 @@ def make_case(seq, traces, cid):
         if len(loaded) > 1:
             multi = True
         if loaded:
-            q, want = query(loaded, traces, idx)
+            q, want = query(loaded, traces0, idx, src)
             cmds.append(['try', ['evalstr', '111', q]])
             expect.append(want)
         else:
@@ -115,7 +131,7 @@ def make_case(seq, traces, cid):
                     continue
                 cmds.append(['try', ['evalstr', '111', nm]])
                 expect.append('err')
-    return {'id': cid, 'cmds': cmds, 'expect': expect, 'seq': list(seq), 'skip': len(traces) + 1, 'nontrivial': multi,
+    return {'id': cid, 'cmds': cmds, 'expect': expect, 'seq': list(seq), 'skip': len(traces0) + 1, 'nontrivial': multi,
             'per_op': None}
 
 
